@@ -13,3 +13,5 @@ import Frequenz.Props.C19
 import Frequenz.Props.C20
 import Frequenz.Props.C14
 import Frequenz.Props.C15
+import Frequenz.Props.C01
+import Frequenz.Props.C02
